@@ -196,17 +196,17 @@ class MPRNLRI(Attribute, Family):
         # - With LLNH negotiated, 16-byte link-local (fe80::/10) is explicitly allowed
         # - Semantic interpretation of 16-byte NH depends on LLNH negotiation
         if negotiated.nexthop:
+            nh_afi: AFI | None = None
             if len_nh in (16, 32, 24):
                 nh_afi = AFI.ipv6
             elif len_nh in (4, 12):
                 nh_afi = AFI.ipv4
-            else:
-                raise Notify(
-                    3, 0, 'unsupported family {} {} with extended next-hop capability enabled'.format(afi, safi)
-                )
+            # the capability is negotiated for the session, not for this family: any other length
+            # (none at all for flowspec) is not an RFC 8950 next hop and is judged below by the
+            # sizes of the family itself.
             # only the families RFC 8950 applies to have an entry for the next hop AFI: the others
             # (VPLS, EVPN, BGP-LS, ...) keep the next hop sizes of their own family
-            if (nh_afi, safi) in Family.size:
+            if nh_afi is not None and (nh_afi, safi) in Family.size:
                 length, _ = Family.size[(nh_afi, safi)]
 
         if len_nh not in length:
